@@ -33,7 +33,7 @@ structure Poly where
 deriving Repr
 
 /-- the Hensel lift of `make_poly`: `b = h1 + h2·D` with `h1 = r`,
-`h2 = ((n − h1²)/D mod D)·(2 h1)⁻¹ mod D` -/
+`h2 = c·(2 h1)⁻¹ mod D`, `c = (n − h1²)/D mod D` (for tiny `n` with `h1² > n`: `c = −((h1² − n)/D) mod D`) -/
 def henselB (n d r : Nat) : Option Nat :=
   if d = 0 then none                                             -- `% d`
   else if r * r % d ≠ n % d then none                            -- debug_assert
@@ -41,11 +41,11 @@ def henselB (n d r : Nat) : Option Nat :=
     match chkU (r * r) with
     | none => none
     | some hh =>
-      if n < hh then none                                        -- n - h1 * h1 underflows
-      else
-        match invMod (2 * r) d with                              -- inv_mod(&(h1 << 1), &d).unwrap()
-        | none => none
-        | some i => chkU (r + (n - hh) / d % d * i % d * d)
+      -- let c = if h1sq <= *n { ((n - h1sq) / d) % d } else { (d - ((h1sq - *n) / d) % d) % d };
+      let c := if hh ≤ n then (n - hh) / d % d else (d - (hh - n) / d % d) % d
+      match invMod (2 * r) d with                                -- inv_mod(&(h1 << 1), &d).unwrap()
+      | none => none
+      | some i => chkU (r + c * i % d * d)
 
 /-- `if !b.bit(0) { b = d * d - b }` -/
 def oddB (d b0 : Nat) : Nat := if b0 % 2 = 0 then d * d - b0 else b0
